@@ -61,7 +61,7 @@ fn get_block_stack_table_removal_multiplicand<E: FieldElement<BaseField = Felt>>
         let parent_fmp = main_trace.fmp(i + 1);
         let parent_stack_depth = main_trace.stack_depth(i + 1);
         let parent_next_overflow_addr = main_trace.parent_overflow_address(i + 1);
-        let parent_fn_hash = main_trace.fn_hash(i);
+        let parent_fn_hash = main_trace.fn_hash(i + 1);
 
         [
             ONE,
@@ -75,7 +75,7 @@ fn get_block_stack_table_removal_multiplicand<E: FieldElement<BaseField = Felt>>
             parent_fn_hash[0],
             parent_fn_hash[1],
             parent_fn_hash[2],
-            parent_fn_hash[0],
+            parent_fn_hash[3],
         ]
     } else {
         let mut result = [ZERO; 12];
@@ -117,7 +117,7 @@ fn get_block_stack_table_inclusion_multiplicand<E: FieldElement<BaseField = Felt
         let parent_fmp = main_trace.fmp(i);
         let parent_stack_depth = main_trace.stack_depth(i);
         let parent_next_overflow_addr = main_trace.parent_overflow_address(i);
-        let parent_fn_hash = main_trace.decoder_hasher_state_first_half(i);
+        let parent_fn_hash = main_trace.fn_hash(i);
         [
             ONE,
             block_id,
